@@ -171,6 +171,14 @@ func (s *kvService) KvCommit(_ context.Context, req *pb.KvCommitRequest) (*pb.Kv
 	return &pb.KvCommitResponse{Response: r.GetCommit()}, nil
 }
 
+func (s *kvService) KvBatchRollback(_ context.Context, req *pb.KvBatchRollbackRequest) (*pb.KvBatchRollbackResponse, error) {
+	r, err := s.apply(req.GetContext(), &pb.Request{CmdType: pb.CmdType_CMD_BATCH_ROLLBACK, Cmd: &pb.Request_BatchRollback{BatchRollback: req.GetRequest()}})
+	if err != nil {
+		return nil, err
+	}
+	return &pb.KvBatchRollbackResponse{Response: r.GetBatchRollback()}, nil
+}
+
 func (s *kvService) KvResolveLock(_ context.Context, req *pb.KvResolveLockRequest) (*pb.KvResolveLockResponse, error) {
 	r, err := s.apply(req.GetContext(), &pb.Request{CmdType: pb.CmdType_CMD_RESOLVE_LOCK, Cmd: &pb.Request_ResolveLock{ResolveLock: req.GetRequest()}})
 	if err != nil {
@@ -406,7 +414,7 @@ func (e *twoPCEngine) close() {
 }
 
 func (e *twoPCEngine) Rule() string {
-	return "C28: one transaction of 1-4 put/delete mutations over 1-3 regions (every primary choice and mutation order), optional older committed values / a foreign lock / a newer write on its keys; the real client's RPCs are delivered, dropped, answered after the reply is lost, answered NotLeader or re-delivered one by one, with CheckTxnStatus (current ts below/at/above lock expiry and commit version) and ResolveLocks of a second client interleaved at any point, client restarts with the same versions, then full resolution and a read of every key at the commit version; non-trivial = a fault or a resolver step happened before the client finished and the final observation is settled (no lock left) on a transaction with at least one put"
+	return "C28: one transaction of 1-4 put/delete mutations over 1-3 regions (every primary choice and mutation order), optional older committed values / a foreign lock / a newer write on its keys; the real client's RPCs are delivered, dropped, answered after the reply is lost, answered NotLeader or re-delivered one by one, with CheckTxnStatus (current ts below/at/above lock expiry and commit version) and ResolveLocks of a second client, and prewrites / rollbacks of other transactions on the same keys, interleaved at any point, client restarts with the same versions, then full resolution and a read of every key at the commit version; non-trivial = a fault or a resolver step happened before the client finished and the final observation is settled (no lock left) on a transaction with at least one put"
 }
 
 func (e *twoPCEngine) Extra() map[string]any {
@@ -857,6 +865,40 @@ func (e *twoPCEngine) execOnce(ops []string) ([]string, bool) {
 			} else {
 				out[i] = fmt.Sprintf("ok:%d", n)
 			}
+		case "foreign", "foreignabort":
+			// another transaction prewrites one of the keys / is rolled back on it
+			if c.status == "none" {
+				out[i] = "no-txn"
+				break
+			}
+			k, fts := int(num(1)), num(2)
+			own := false
+			for _, id := range c.keyIDs {
+				if id == k {
+					own = true
+				}
+			}
+			if !own || fts == c.start || (toks[0] == "foreignabort" && fts == c.cv) {
+				out[i] = "skip"
+				break
+			}
+			if toks[0] == "foreign" {
+				pr, err := e.raw.KvPrewrite(bg, &pb.KvPrewriteRequest{Context: c.ctxFor(k), Request: &pb.PrewriteRequest{
+					Mutations:   []*pb.Mutation{{Op: pb.Mutation_Put, Key: c.key(k), Value: []byte(strconv.FormatUint(num(4), 10))}},
+					PrimaryLock: c.key(k), StartVersion: fts, LockTtl: num(3)}})
+				out[i] = classifyReply(pr, err)
+			} else {
+				rr, err := e.raw.KvBatchRollback(bg, &pb.KvBatchRollbackRequest{Context: c.ctxFor(k), Request: &pb.BatchRollbackRequest{
+					Keys: [][]byte{c.key(k)}, StartVersion: fts}})
+				switch {
+				case err != nil:
+					out[i] = "rpcerr"
+				case rr.GetResponse().GetError() != nil:
+					out[i] = "err:" + keyErrClass(rr.GetResponse().GetError())
+				default:
+					out[i] = "ok"
+				}
+			}
 		case "get":
 			if c.status == "none" {
 				out[i] = "no-txn"
@@ -916,7 +958,7 @@ func (e *twoPCEngine) Nontrivial(ops, impl, model, spec []string) bool {
 		case "txn":
 			running = strings.HasSuffix(impl[i], "st=running")
 			hasPut = strings.Contains(op, ":p:")
-		case "drop", "lose", "notleader", "redeliver", "check", "resolve", "restart":
+		case "drop", "lose", "notleader", "redeliver", "check", "resolve", "restart", "foreign", "foreignabort":
 			if running {
 				fault = true
 			}
@@ -1022,8 +1064,36 @@ func (e *twoPCEngine) Gen(r *hlib.Rand, tier string) []string {
 	faultAt := r.Intn(maxRPC + 1)
 	faultKind := hlib.Pick(r, []string{"drop", "lose", "notleader", "none", "check", "check"})
 	steps := 0
+	// other transactions: unused, unique start timestamps
+	foreignTs := []uint64{16, 17, 18, 19, 22, 23, 24, 25}
+	type fw struct {
+		k  int
+		ts uint64
+	}
+	var foreigns []fw
+	foreign := func() {
+		if len(foreignTs) == 0 {
+			return
+		}
+		ts := foreignTs[0]
+		foreignTs = foreignTs[1:]
+		k := r.Intn(nKeys)
+		foreigns = append(foreigns, fw{k, ts})
+		ops = append(ops, fmt.Sprintf("foreign %d %d %d %d", k, ts, hlib.Pick(r, []uint64{0, 4}), 900+k))
+	}
+	foreignAbort := func() {
+		if len(foreigns) == 0 {
+			return
+		}
+		f := hlib.Pick(r, foreigns)
+		ops = append(ops, fmt.Sprintf("foreignabort %d %d", f.k, f.ts))
+	}
 	env := func() {
-		switch x := r.Intn(100); {
+		switch x := r.Intn(115); {
+		case x >= 108:
+			foreignAbort()
+		case x >= 100:
+			foreign()
 		case x < 45:
 			ops = append(ops, fmt.Sprintf("check %d", hlib.Pick(r, curPool)))
 		case x < 75:
@@ -1074,6 +1144,13 @@ func (e *twoPCEngine) Gen(r *hlib.Rand, tier string) []string {
 	}
 	if r.Chance(40) {
 		ops = append(ops, fmt.Sprintf("redeliver %d", r.Intn(maxRPC+1)))
+	}
+	if r.Chance(25) {
+		// a later writer runs into whatever the transaction left behind, then gives up
+		foreign()
+		if r.Chance(70) {
+			foreignAbort()
+		}
 	}
 	// settle: the primary's fate is decided with an expired-lock current ts, every region resolved
 	settle := func() {
